@@ -155,7 +155,7 @@ PROPS["C14"] = dict(
     claim="Every leaf functor callable (52) forwards its argument pack unchanged to view::<own name>; every functional:: object (126) binds the callable/op of its own name with the operand arity of the oracle table; the 73 ufunc aliases bind the op type of the same name; get_function_t<view X> hands back functional::X; the order facts of the functor machinery (R-ORDER: functors of f precede those of g in f*g, a functor's result precedes the operands still curried, leaves are collected left to right, attributes are appended); and the extraction fold ties every chained sub-composition to its operand position (R-EXTRACTPOS; violated on the unchanged tree, known finding F16). Currying splits, associativity at value level and graph node ids are not decided.",
     note=E2_NOTE,
     technique=E2_TECH,
-    e2=[dict(rule="R-FWD.functional")],
+    e2=[dict(rule="R-FWD.functional"), dict(rule="R-GETFN")],
     rule="E2: one instance per functor callable, functor object, op alias and get_function specialisation under include/nmtools/array/functional (core machinery files excluded); distinct by qualified name",
     explanation="A functor equals the direct view call only if its callable forwards to the view of the same name with the same arity; these are structural facts.",
     not_decided="currying splits, f*g associativity at value level, operand identity, compute-graph node ids",
@@ -168,7 +168,7 @@ PROPS["C13"] = dict(
     note=E1_NOTE + " " + E2_NOTE + " CUDA/HIP headers are parsed with declaration stubs (/verif/stubs) for the vendor builtins; host-API parts of those headers do not parse and are ignored.",
     technique=E1_TECH + " + libTooling sibling rule on kernel entry templates",
     e1=[dict(tu="c13_kernel.cpp")],
-    e2=[dict(rule="R-KSIB")],
+    e2=[dict(rule="R-KSIB"), dict(rule="R-GETFN")],
     rule=E1_RULE + "; E2: one instance per vendor kernel entry template",
     explanation="The guard clause quantifies over all schedules trivially because each thread's effect is a function of its own ids only; the obligation is stated for symbolic ids.",
     not_decided="out[idx] = host element idx for rank>=2 (needs the mixed-radix round trip), SYCL and OpenCL entry points (headers need vendor SDKs), host-side launch size arithmetic",
